@@ -8,7 +8,11 @@
 use bytes::Bytes;
 use domain::base::iana::{Class, Opcode, OptRcode, OptionCode, Rcode, Rtype};
 use domain::base::rdata::UnknownRecordData;
-use domain::base::message_builder::StreamTarget;
+use domain::base::message::CopyRecordsError;
+use domain::base::message_builder::{AdditionalBuilder, PushError, StreamTarget};
+use domain::base::opt::{ComposeOptData, LongOptData};
+use domain::base::wire::Composer;
+use domain::base::Header;
 use domain::base::{Message, MessageBuilder, Name, ParsedName, ToName, Ttl};
 use domain::net::client::cache;
 use domain::net::client::request::{ComposeRequest, Error, GetResponse, RequestMessage, SendRequest};
@@ -140,13 +144,16 @@ struct RecSpec { sec: usize, rtype: u16, class: u16, ttl: u32, owner_apex: bool,
 /// `broken`: ARCOUNT promises one record more than the message holds.  `ext`: extended rcode
 /// carried by an OPT record (added even if the request had none).  `opt_data`: the OPT carries an option.
 #[derive(Clone, Debug)]
-enum RespSpec { Err(u8), Msg { rcode: u8, aa: bool, tc: bool, ad: bool, noq: bool, recs: Vec<RecSpec>, broken: bool, ext: Option<u16>, opt_data: bool } }
+enum RespSpec { Err(u8), Msg { rcode: u8, aa: bool, tc: bool, ad: bool, noq: bool, recs: Vec<RecSpec>, broken: bool, ext: Option<u16>, opt_data: bool,
+    /// the OPT record is the first record of the additional section instead of the last (RFC 6891 6.1.1: anywhere)
+    opt_first: bool } }
 
 #[derive(Clone, Debug)]
 /// How the request gets (or does not get) EDNS: `base_opt` = the base message handed to
 /// RequestMessage::new already carries an OPT record (1: DO clear, 2: DO set); `own` = which setter is
 /// called on the RequestMessage (0: set_dnssec_ok(true) iff do_, 1: set_dnssec_ok(do_) always,
-/// 2: set_udp_payload_size only, do_ is false).  What counts is the RequestMessage's own OPT: an OPT
+/// 2: set_udp_payload_size only, do_ is false; 3: not a RequestMessage at all but a relayed query (own ComposeRequest)
+/// whose OPT record with DO = do_ is followed by another additional record).  What counts is the RequestMessage's own OPT: an OPT
 /// record of the base message is dropped by both serialisations.
 struct QSpec { name: usize, class: u16, rtype: u16, rd: bool, cd: bool, ad: bool, do_: bool, opcode: u8, base_opt: u8, own: u8 }
 impl QSpec {
@@ -219,32 +226,89 @@ struct MockState { wire_append: bool, next: HashMap<u16, (RespSpec, u64)>, log: 
 #[derive(Clone)]
 struct Mock(Arc<Mutex<MockState>>);
 
-struct MockReq { mock: Mock, req: RequestMessage<Vec<u8>> }
+struct MockReq { mock: Mock, req: AnyReq }
 impl std::fmt::Debug for MockReq { fn fmt(&self, f: &mut std::fmt::Formatter<'_>) -> std::fmt::Result { f.write_str("MockReq") } }
 
 impl SendRequest<RequestMessage<Vec<u8>>> for Mock {
     fn send_request(&self, req: RequestMessage<Vec<u8>>) -> Box<dyn GetResponse + Send + Sync> {
-        Box::new(MockReq { mock: self.clone(), req })
+        Box::new(MockReq { mock: self.clone(), req: AnyReq::Rm(req) })
+    }
+}
+impl SendRequest<Verbatim> for Mock {
+    fn send_request(&self, req: Verbatim) -> Box<dyn GetResponse + Send + Sync> {
+        Box::new(MockReq { mock: self.clone(), req: AnyReq::Vb(req) })
+    }
+}
+
+/// A ComposeRequest of our own (the trait is public): a relayed query that goes out octet for octet as it
+/// came in, whatever the order of its additional records (RFC 6891 6.1.1: OPT may be anywhere).
+#[derive(Clone, Debug)]
+struct Verbatim { msg: Message<Vec<u8>>, header: Header }
+impl ComposeRequest for Verbatim {
+    fn append_message<Target: Composer>(&self, target: Target) -> Result<AdditionalBuilder<Target>, CopyRecordsError> {
+        let mut target = MessageBuilder::from_target(target).map_err(|_| CopyRecordsError::Push(PushError::ShortBuf))?;
+        *target.header_mut() = self.header;
+        let source = self.msg.question();
+        let mut target = target.question();
+        for q in source { target.push(q?)?; }
+        let mut source = source.answer()?;
+        let mut target = target.answer();
+        for rr in &mut source { target.push(rr?.into_record::<UnknownRecordData<_>>()?.expect("record"))?; }
+        let mut source = source.next_section()?.expect("section");
+        let mut target = target.authority();
+        for rr in &mut source { target.push(rr?.into_record::<UnknownRecordData<_>>()?.expect("record"))?; }
+        let source = source.next_section()?.expect("section");
+        let mut target = target.additional();
+        for rr in source { target.push(rr?.into_record::<UnknownRecordData<_>>()?.expect("record"))?; }
+        Ok(target)
+    }
+    fn to_message(&self) -> Result<Message<Vec<u8>>, Error> { let mut m = self.msg.clone(); *m.header_mut() = self.header; Ok(m) }
+    fn to_vec(&self) -> Result<Vec<u8>, Error> { Ok(self.to_message()?.into_octets()) }
+    fn header(&self) -> &Header { &self.header }
+    fn header_mut(&mut self) -> &mut Header { &mut self.header }
+    fn set_udp_payload_size(&mut self, _value: u16) {}
+    fn set_dnssec_ok(&mut self, _value: bool) {}
+    fn add_opt(&mut self, _opt: &impl ComposeOptData) -> Result<(), LongOptData> { Ok(()) }
+    fn is_answer(&self, _answer: &Message<[u8]>) -> bool { true }
+    fn dnssec_ok(&self) -> bool { edns_of(&self.msg).is_some_and(|o| o.0) }
+}
+
+#[derive(Clone, Debug)]
+enum AnyReq { Rm(RequestMessage<Vec<u8>>), Vb(Verbatim) }
+impl AnyReq {
+    fn send(self, conn: &cache::Connection<Mock>) -> Box<dyn GetResponse + Send + Sync> {
+        match self { AnyReq::Rm(r) => conn.send_request(r), AnyReq::Vb(v) => conn.send_request(v) }
     }
 }
 
 /// the request as a transport would put it on the wire: stream-style (append_message into a
 /// StreamTarget) or dgram-style (to_message)
-fn wire_message(req: &RequestMessage<Vec<u8>>, append: bool) -> Message<Vec<u8>> {
+fn wire_message(req: &AnyReq, append: bool) -> Message<Vec<u8>> {
     if append {
         let mut target = StreamTarget::new_vec();
-        req.append_message(&mut target).unwrap();
+        match req { AnyReq::Rm(r) => { r.append_message(&mut target).unwrap(); } AnyReq::Vb(v) => { v.append_message(&mut target).unwrap(); } }
         Message::from_octets(target.as_dgram_slice().to_vec()).unwrap()
-    } else { req.to_message().unwrap() }
+    } else { match req { AnyReq::Rm(r) => r.to_message().unwrap(), AnyReq::Vb(v) => v.to_message().unwrap() } }
 }
 
 /// both serialisations of one request must describe the same request (the cache keys on to_message,
 /// stream transports send append_message)
-fn serialisations_agree(req: &RequestMessage<Vec<u8>>) -> Result<(), String> {
+fn serialisations_agree(req: &AnyReq) -> Result<(), String> {
     let (a, b) = (wire_message(req, true), wire_message(req, false));
-    let d = |m: &Message<Vec<u8>>| { let q = observe_query(m); format!("{:?} opt={:?} q={:?}", q, m.opt().map(|o| (o.dnssec_ok(), o.udp_payload_size(), o.version())),
+    let d = |m: &Message<Vec<u8>>| { let q = observe_query(m); format!("{:?} opt={:?} q={:?}", q, edns_of(m),
         m.question().next().and_then(|q| q.ok()).map(|q| format!("{}", q.qname()))) };
     if d(&a) == d(&b) { Ok(()) } else { Err(format!("append_message: {} / to_message: {}", d(&a), d(&b))) }
+}
+
+/// EDNS of a message read off the wire form, independently of Message::opt(): the first record of type
+/// OPT anywhere in the additional section; (DO bit, UDP payload size)
+fn edns_of(m: &Message<Vec<u8>>) -> Option<(bool, u16)> {
+    let add = m.additional().ok()?;
+    for rr in add {
+        let rr = rr.ok()?;
+        if rr.rtype() == Rtype::OPT { return Some((rr.ttl().as_secs() & 0x8000 != 0, rr.class().to_int())); }
+    }
+    None
 }
 
 fn observe_query(m: &Message<Vec<u8>>) -> QObs {
@@ -258,13 +322,13 @@ fn observe_query(m: &Message<Vec<u8>>) -> QObs {
         None => (0, 0, 0),
     };
     let h = m.header();
-    QObs { name, class, rtype, opcode: h.opcode().to_int(), rd: h.rd(), cd: h.cd(), ad: h.ad(), do_: m.opt().is_some_and(|o| o.dnssec_ok()) }
+    QObs { name, class, rtype, opcode: h.opcode().to_int(), rd: h.rd(), cd: h.cd(), ad: h.ad(), do_: edns_of(m).is_some_and(|o| o.0) }
 }
 
 fn build_response(req: &Message<Vec<u8>>, q: &QObs, spec: &RespSpec, honest: bool) -> Result<Message<Bytes>, Error> {
-    let (rcode, aa, tc, ad, noq, recs, broken, ext, opt_data) = match spec {
+    let (rcode, aa, tc, ad, noq, recs, broken, ext, opt_data, opt_first) = match spec {
         RespSpec::Err(c) => return Err(err_of(*c)),
-        RespSpec::Msg { rcode, aa, tc, ad, noq, recs, broken, ext, opt_data } => (*rcode, *aa, *tc, *ad, *noq, recs, *broken, *ext, *opt_data),
+        RespSpec::Msg { rcode, aa, tc, ad, noq, recs, broken, ext, opt_data, opt_first } => (*rcode, *aa, *tc, *ad, *noq, recs, *broken, *ext, *opt_data, *opt_first),
     };
     let qname: Name<Vec<u8>> = req.question().next().and_then(|q| q.ok()).map(|q| q.qname().to_name())
         .unwrap_or_else(|| Name::from_str("a.example.").unwrap());
@@ -291,16 +355,23 @@ fn build_response(req: &Message<Vec<u8>>, q: &QObs, spec: &RespSpec, honest: boo
     let mut auth = ans.authority();
     for r in recs.iter().filter(|r| r.sec == 1 && want(r)) { auth.push(rec(r)).unwrap(); }
     let mut add = auth.additional();
-    for r in recs.iter().filter(|r| r.sec == 2 && want(r)) { add.push(rec(r)).unwrap(); }
-    if req.opt().is_some() || ext.is_some() {
-        let d = q.do_;
+    let with_opt = edns_of(req).is_some() || ext.is_some();
+    let d = q.do_;
+    let push_opt = |add: &mut domain::base::message_builder::AdditionalBuilder<Vec<u8>>| {
         add.opt(|o| {
             o.set_udp_payload_size(1232); o.set_dnssec_ok(d);
             if let Some(x) = ext { o.set_rcode(OptRcode::masked_from_int(x)); }
             if opt_data { o.push_raw_option(OptionCode::from_int(65001), 3, |t| t.append_slice(&[1, 2, q.rtype as u8]))?; }
             Ok(())
         }).unwrap();
+    };
+    if with_opt && opt_first { push_opt(&mut add); }
+    for r in recs.iter().filter(|r| r.sec == 2 && want(r)) { add.push(rec(r)).unwrap(); }
+    if with_opt && opt_first {
+        // something always follows the OPT record: a private-use record with a long TTL
+        add.push((apex.clone(), Class::IN, Ttl::from_secs(4_000_000), UnknownRecordData::from_octets(Rtype::from_int(65280), vec![1u8, 2, 3, 4]).unwrap())).unwrap();
     }
+    if with_opt && !opt_first { push_opt(&mut add); }
     let mut octets = add.into_message().into_octets();
     if broken { let n = u16::from_be_bytes([octets[10], octets[11]]) + 1; octets[10..12].copy_from_slice(&n.to_be_bytes()); }
     Ok(Message::from_octets(Bytes::from(octets)).unwrap())
@@ -335,7 +406,7 @@ struct Served { q: QObs, now_ms: u64, resp: RResp, log_len: usize }
 #[derive(Default)]
 struct Trace { disagree: Vec<String>, words: Vec<String>, obs: Vec<String>, served: Vec<Served>, cur: Option<(String, usize)>, altered: Vec<String>, nonneg: usize, nserved: usize }
 
-fn build_query(q: &QSpec, id: u16) -> RequestMessage<Vec<u8>> {
+fn build_query(q: &QSpec, id: u16) -> AnyReq {
     let mut mb = MessageBuilder::new_vec();
     {
         let h = mb.header_mut();
@@ -343,6 +414,16 @@ fn build_query(q: &QSpec, id: u16) -> RequestMessage<Vec<u8>> {
     }
     let mut qb = mb.question();
     qb.push((Name::<Vec<u8>>::from_str(NAMES[q.name].0).unwrap(), Rtype::from_int(q.rtype), Class::from_int(q.class))).unwrap();
+    if q.own == 3 {
+        // a relayed query: OPT record (DO = do_) first, then a private-use record
+        let mut add = qb.additional();
+        let d = q.do_;
+        add.opt(|o| { o.set_udp_payload_size(1232); o.set_dnssec_ok(d); Ok(()) }).unwrap();
+        add.push((Name::<Vec<u8>>::from_str("example.").unwrap(), Class::IN, Ttl::from_secs(0), UnknownRecordData::from_octets(Rtype::from_int(65280), vec![9u8, 9]).unwrap())).unwrap();
+        let msg = add.into_message();
+        let header = msg.header();
+        return AnyReq::Vb(Verbatim { msg, header });
+    }
     let base = if q.base_opt > 0 {
         let mut add = qb.additional();
         let d = q.base_opt == 2;
@@ -355,7 +436,7 @@ fn build_query(q: &QSpec, id: u16) -> RequestMessage<Vec<u8>> {
         1 => req.set_dnssec_ok(q.do_),
         _ => req.set_udp_payload_size(1400),
     }
-    req
+    AnyReq::Rm(req)
 }
 
 fn qflags(q: &QSpec) -> u32 { q.rd as u32 | (q.cd as u32) << 1 | (q.ad as u32) << 2 | (q.own_do() as u32) << 3 | (q.base_opt as u32) << 4 | (q.own_present() as u32) << 6 }
@@ -394,7 +475,7 @@ async fn run_concurrent(cfg: Cfg, evs: Vec<Ev>, batches: Vec<usize>, trace: Arc<
             let reqmsg = build_query(&ev.q, 1000 + *j as u16);
             if let Err(e) = serialisations_agree(&reqmsg) { trace.lock().unwrap().disagree.push(e); }
             let qobs = observe_query(&wire_message(&reqmsg, true));
-            reqs.push((*j, qobs, conn.send_request(reqmsg)));
+            reqs.push((*j, qobs, reqmsg.send(&conn)));
         }
         let mref = &mock;
         let results = futures_util::future::join_all(reqs.iter_mut().map(|(j, q, r)| { let (j, q) = (*j, q.clone()); async move {
@@ -448,7 +529,7 @@ async fn run_history(cfg: Cfg, evs: Vec<Ev>, trace: Arc<Mutex<Trace>>, mock: Moc
             let qobs = observe_query(&wire_message(&reqmsg, true));
         // the request object may be created well before it is awaited: what counts (age of
         // entries, expiry) is the time at which get_response() runs
-        let mut req = conn.send_request(reqmsg);
+        let mut req = reqmsg.send(&conn);
         if ev.hold_ms > 0 { tokio::time::advance(Duration::from_millis(ev.hold_ms)).await; }
         let now_ms = (tokio::time::Instant::now() - t0).as_millis() as u64;
         let qw = format!("q {} {} {} {} {} {} {}", NAMES[ev.q.name].1, ev.q.name + 1, ev.q.class, ev.q.rtype, qflags(&ev.q), ev.q.opcode, now_ms);
@@ -732,7 +813,7 @@ fn gen_resp(r: &mut Rng, q: &QSpec, ttls: &[u32], ser: &mut u32) -> RespSpec {
     // extended rcodes; those whose low nibble is 0 (NOERROR) or 3 (NXDOMAIN) only differ from these in the OPT record
     let ext = if r.chance(1, 12) { Some(*r.pick(&[16u16, 19, 23, 0x120, 0x123, 0x7f0, 0xff3, 3841, 4095])) } else { None };
     RespSpec::Msg { rcode, aa: r.chance(1, 2), tc: r.chance(1, 10), ad: r.chance(1, 2), noq: r.chance(1, 60), recs,
-        broken: r.chance(1, 30), ext, opt_data: r.chance(1, 6) }
+        broken: r.chance(1, 30), ext, opt_data: r.chance(1, 6), opt_first: r.chance(1, 3) }
 }
 
 fn gen_history(r: &mut Rng, cfg: &Cfg, len: usize) -> Vec<Ev> {
@@ -775,7 +856,7 @@ fn gen_history(r: &mut Rng, cfg: &Cfg, len: usize) -> Vec<Ev> {
         // 1 history in 6: DO requests throughout, CD set every other time (CD partitions the cache for DO requests too)
         if cd_do { q.do_ = true; q.cd = r.chance(1, 2); }
         // EDNS by other routes: an OPT record in the hand-made base message (dropped), other setters
-        match r.below(10) { 0 | 1 => { q.base_opt = 1 + q.do_ as u8; q.do_ = false; } 2 => { q.base_opt = r.range(1, 2) as u8; q.own = 1; } 3 => { q.own = 2; q.do_ = false; } 4 => { q.own = 1; } _ => {} }
+        match r.below(10) { 0 | 1 => { q.base_opt = 1 + q.do_ as u8; q.do_ = false; } 2 => { q.base_opt = r.range(1, 2) as u8; q.own = 1; } 3 => { q.own = 2; q.do_ = false; } 4 => { q.own = 1; } 5 => { q.own = 3; } _ => {} }
         let resp = gen_resp(r, &q, &ttls, &mut ser);
         let delay = if r.chance(1, 6) { *r.pick(&[1u64, 400, 1000, 1500]) } else { 0 };
         // 1 in 5 requests is created first and awaited after the clock has moved on to (around) an expiry mark
@@ -792,7 +873,7 @@ fn bad_rec(sec: usize, rtype: u16, ttl: u32, apex: bool, ser: u32) -> RecSpec { 
 fn qs(name: usize, rtype: u16, flags: u32) -> QSpec {
     QSpec { name, class: 1, rtype, rd: flags & 1 != 0, cd: flags & 2 != 0, ad: flags & 4 != 0, do_: flags & 8 != 0, opcode: 0, base_opt: 0, own: 0 }
 }
-fn msg(rcode: u8, ad: bool, tc: bool, recs: Vec<RecSpec>) -> RespSpec { RespSpec::Msg { rcode, aa: true, tc, ad, noq: false, recs, broken: false, ext: None, opt_data: false } }
+fn msg(rcode: u8, ad: bool, tc: bool, recs: Vec<RecSpec>) -> RespSpec { RespSpec::Msg { rcode, aa: true, tc, ad, noq: false, recs, broken: false, ext: None, opt_data: false, opt_first: false } }
 
 /// fixed boundary / regression histories
 fn corpus() -> Vec<(Cfg, Vec<Ev>)> {
@@ -835,11 +916,11 @@ fn corpus() -> Vec<(Cfg, Vec<Ev>)> {
     }
     // an upstream "response" that carries no question section (NOERROR): must not panic
     v.push((dflt.clone(), vec![
-        ev(0, qs(0, 1, 1), RespSpec::Msg { rcode: 0, aa: false, tc: false, ad: false, noq: true, recs: vec![a_rec(0, 1, 60, false, 1)], broken: false, ext: None, opt_data: false }),
+        ev(0, qs(0, 1, 1), RespSpec::Msg { rcode: 0, aa: false, tc: false, ad: false, noq: true, recs: vec![a_rec(0, 1, 60, false, 1)], broken: false, ext: None, opt_data: false, opt_first: false }),
         ev(1000, qs(0, 1, 1), msg(0, false, false, vec![a_rec(0, 1, 60, false, 2)])), ev(1000, qs(0, 1, 1), none.clone())]));
     // the same with an error rcode (the stream/dgram transports accept such replies when all sections are empty)
     v.push((dflt.clone(), vec![
-        ev(0, qs(0, 1, 1), RespSpec::Msg { rcode: 2, aa: false, tc: false, ad: false, noq: true, recs: vec![], broken: false, ext: None, opt_data: false }),
+        ev(0, qs(0, 1, 1), RespSpec::Msg { rcode: 2, aa: false, tc: false, ad: false, noq: true, recs: vec![], broken: false, ext: None, opt_data: false, opt_first: false }),
         ev(1000, qs(0, 1, 1), none.clone()), ev(30_000, qs(0, 1, 1), none.clone())]));
     // an answer to a DO request with one record whose RDATA does not parse: requests without DO
     // must not get a parse error out of the cache once the entry has expired (60 s)
@@ -855,13 +936,13 @@ fn corpus() -> Vec<(Cfg, Vec<Ev>)> {
         ev(1, qs(0, 1, 1), msg(0, false, false, vec![a_rec(0, 1, 60, false, 3)])), ev(1000, qs(0, 1, 1), none.clone())]));
     // a message whose sections cannot be walked: the caller gets the error, nothing is cached; with TC it passes through
     v.push((dflt.clone(), vec![
-        ev(0, qs(0, 1, 1), RespSpec::Msg { rcode: 0, aa: false, tc: false, ad: false, noq: false, recs: vec![a_rec(0, 1, 60, false, 1)], broken: true, ext: None, opt_data: false }),
-        ev(0, qs(0, 1, 1), RespSpec::Msg { rcode: 0, aa: false, tc: true, ad: false, noq: false, recs: vec![a_rec(0, 1, 60, false, 2)], broken: true, ext: None, opt_data: false }),
+        ev(0, qs(0, 1, 1), RespSpec::Msg { rcode: 0, aa: false, tc: false, ad: false, noq: false, recs: vec![a_rec(0, 1, 60, false, 1)], broken: true, ext: None, opt_data: false, opt_first: false }),
+        ev(0, qs(0, 1, 1), RespSpec::Msg { rcode: 0, aa: false, tc: true, ad: false, noq: false, recs: vec![a_rec(0, 1, 60, false, 2)], broken: true, ext: None, opt_data: false, opt_first: false }),
         ev(0, qs(0, 1, 1), msg(0, false, false, vec![a_rec(0, 1, 60, false, 3)])), ev(1000, qs(0, 1, 1), none.clone())]));
     // extended rcode BADVERS (16) in an OPT record: header rcode NOERROR, but cached as an error for misc_error_duration (30 s);
     // the OPT record with its option is served as stored
     v.push((dflt.clone(), vec![
-        ev(0, qs(0, 1, 1), RespSpec::Msg { rcode: 0, aa: false, tc: false, ad: false, noq: false, recs: vec![a_rec(0, 1, 600, false, 1)], broken: false, ext: Some(16), opt_data: true }),
+        ev(0, qs(0, 1, 1), RespSpec::Msg { rcode: 0, aa: false, tc: false, ad: false, noq: false, recs: vec![a_rec(0, 1, 600, false, 1)], broken: false, ext: Some(16), opt_data: true, opt_first: false }),
         ev(30_000, qs(0, 1, 0), none.clone()), ev(1, qs(0, 1, 1), none.clone())]));
     // a hand-made base message that already carries an OPT record with DO set, no EDNS setter called: both
     // serialisations drop it, so the cache keys it as DO clear and upstream is asked without DO; an ordinary DO
@@ -880,10 +961,20 @@ fn corpus() -> Vec<(Cfg, Vec<Ev>)> {
         ev(0, qs(0, 1, 2), none.clone()), ev(0, qs(0, 1, 0), none.clone())]));
     // extended rcodes whose low nibble reads NOERROR (0x120) / NXDOMAIN (0x123): misc errors, 30 s, not 3600 s
     v.push((dflt.clone(), vec![
-        ev(0, qs(0, 1, 1), RespSpec::Msg { rcode: 3, aa: false, tc: false, ad: false, noq: false, recs: vec![a_rec(1, 6, 3600, true, 1)], broken: false, ext: Some(0x123), opt_data: false }),
+        ev(0, qs(0, 1, 1), RespSpec::Msg { rcode: 3, aa: false, tc: false, ad: false, noq: false, recs: vec![a_rec(1, 6, 3600, true, 1)], broken: false, ext: Some(0x123), opt_data: false, opt_first: false }),
         ev(30_000, qs(0, 1, 1), none.clone()),
-        ev(1, qs(0, 1, 1), RespSpec::Msg { rcode: 0, aa: false, tc: false, ad: false, noq: false, recs: vec![a_rec(0, 1, 3600, false, 2)], broken: false, ext: Some(0x120), opt_data: false }),
+        ev(1, qs(0, 1, 1), RespSpec::Msg { rcode: 0, aa: false, tc: false, ad: false, noq: false, recs: vec![a_rec(0, 1, 3600, false, 2)], broken: false, ext: Some(0x120), opt_data: false, opt_first: false }),
         ev(30_000, qs(0, 1, 0), none.clone()), ev(1, qs(0, 1, 1), none.clone())]));
+    // a relayed DO query whose OPT record is not the last additional record: it is a DO request all the same, so a plain
+    // request afterwards gets the answer stripped and without AD
+    let relayed = |name: usize, rtype: u16, flags: u32| { let mut q = qs(name, rtype, flags); q.own = 3; q };
+    v.push((dflt.clone(), vec![
+        ev(0, relayed(0, 1, 1 | 8), msg(0, true, false, vec![a_rec(0, 1, 300, false, 1), a_rec(0, 46, 300, false, 2)])),
+        ev(1000, qs(0, 1, 1), none.clone()), ev(0, qs(0, 1, 1 | 8), none.clone()), ev(0, relayed(0, 1, 1), none.clone())]));
+    // BADVERS in an OPT record that is the first of three additional records: still a misc error, 30 s
+    v.push((dflt.clone(), vec![
+        ev(0, qs(0, 1, 1), RespSpec::Msg { rcode: 0, aa: false, tc: false, ad: false, noq: false, recs: vec![a_rec(0, 1, 600, false, 1), a_rec(2, 1, 600, true, 2)], broken: false, ext: Some(16), opt_data: false, opt_first: true }),
+        ev(30_000, qs(0, 1, 1), none.clone()), ev(1, qs(0, 1, 1), none.clone())]));
     // requests created early and awaited late: TTL 100 fetched at t=0; created at t=10 s and awaited at t=70 s -> TTL 30;
     // created at t=90 s (entry still fresh) and awaited at t=200 s -> stale, goes upstream; created at 200 s, awaited exactly at expiry
     v.push((dflt.clone(), vec![
